@@ -15,7 +15,7 @@ inductive NumDesc
 deriving Repr
 
 /-- digit function of G sources (same as harness `genDigit`) -/
-def genDigit (p : Nat) : Nat := if p = 0 then 3 else (p * 7 + p / 10 + 1) % 10
+def genDigit (p : Nat) : Nat := if p = 0 then 3 else (p * p / 7 + p * 3 + p / 13 + p / 101 * 7) % 10
 
 def parseNumDesc (s : String) : Option NumDesc :=
   match s.splitOn ":" with
@@ -92,6 +92,8 @@ inductive Stmt
   | wr (h : Nat) (o : OptSet)
   | fpr (h : Nat) (pos : List PTok) (o : OptSet) (mode k : Nat)
   | fwr (h : Nat) (o : OptSet) (mode k : Nat)
+  | mkf (h : Nat) (pat : List Int) (back : Bool)
+  | nxf (it : Nat) (n : Int)
   | cons
 deriving Repr
 
@@ -115,6 +117,9 @@ def parseStmt (s : String) : Option Stmt :=
   | ["mk", h, k] => do pure (.mk (← h.toNat?) k)
   | ["nx", i, n] => do pure (.nx (← i.toNat?) (← n.toInt?))
   | ["mkseq", h] => do pure (.mkseq (← h.toNat?))
+  | ["mkf", h, p] => do pure (.mkf (← h.toNat?) (← parsePat p) false)
+  | ["mkfr", h, p] => do pure (.mkf (← h.toNat?) (← parsePat p) true)
+  | ["nxf", i, n] => do pure (.nxf (← i.toNat?) (← n.toInt?))
   | ["run", q, x] => do pure (.run (← q.toNat?) (← x.toInt?))
   | ["str", h] => do pure (.str (← h.toNat?))
   | ["exact", h] => do pure (.exact (← h.toNat?))
